@@ -18,6 +18,8 @@
 (*               while the receive loop may still be blocked sending          *)
 (*   MirrorPutsOwn  on a full mirror queue the worker returns its receive buffer    *)
 (*   RetireDrops a retiring worker (dynamic workers) takes a datagram with it *)
+(*   MirrorBlocks the worker waits for room in the mirror queue (refutes the  *)
+(*               liveness property Drains once the mirror workers are dead)   *)
 EXTENDS Integers, Sequences, FiniteSets, TLC
 
 CONSTANTS Workers, Dgrams, Bufs, UdpCap, MqCap, EarlyPut, Alias, CloseWaits,
@@ -25,7 +27,9 @@ CONSTANTS Workers, Dgrams, Bufs, UdpCap, MqCap, EarlyPut, Alias, CloseWaits,
           MirCap,        \* capacity of the mirror queue (1000 in the code)
           MirrorPutsOwn, \* deviation: when the mirror queue is full the worker returns ITS OWN receive buffer to the pool
           MaxRetire,     \* dynamic workers: how many workers may be told to quit (dynWorkers closes wQuit)
-          RetireDrops    \* deviation: a worker that sees its quit signal after taking a datagram leaves with it
+          RetireDrops,   \* deviation: a worker that sees its quit signal after taking a datagram leaves with it
+          MirrorDead,    \* the mirror workers have given up (their first send error ends them): nobody takes from the mirror queue
+          MirrorBlocks   \* deviation: the hand-over to the mirror queue waits for room instead of dropping the copy
 
 Kind(d) == d[1]          \* datagrams are <<kind, n>>, kind \in {"data","tpl","bad"}
 
@@ -60,8 +64,12 @@ Init ==
 RecvCheck == /\ recv.pc = "check"
              /\ recv' = [recv EXCEPT !.pc = IF stop THEN "exit" ELSE "get"]
              /\ UNCHANGED <<pool, content, arriving, udpCh, w, mqCh, udpCount, decCount, stop, closed, sd, published, panicked, quit>> /\ UNCHANGED mvars
-RecvGet == /\ recv.pc = "get" /\ pool # {}
-           /\ \E b \in pool : /\ pool' = pool \ {b}
+(* sync.Pool.Get: a buffer somebody has Put - or a fresh one (New), which is as good as any buffer nobody refers to any more *)
+(* (the buffer of a read that timed out is simply dropped; the garbage collector takes it)                               *)
+Unreferenced == Bufs \ (pool \cup {recv.buf} \cup {udpCh[i].buf : i \in 1..Len(udpCh)} \cup {w[x].buf : x \in Workers}
+                              \cup {mirCh[i].buf : i \in 1..Len(mirCh)})
+RecvGet == /\ recv.pc = "get" /\ (pool \cup Unreferenced) # {}
+           /\ \E b \in (IF pool # {} THEN pool ELSE Unreferenced) : /\ pool' = pool \ {b}
                               /\ recv' = [recv EXCEPT !.pc = "read", !.buf = b]
            /\ UNCHANGED <<content, arriving, udpCh, w, mqCh, udpCount, decCount, stop, closed, sd, published, panicked, quit>> /\ UNCHANGED mvars
 RecvRead == /\ recv.pc = "read"
@@ -113,8 +121,9 @@ WExit(x) == /\ w[x].pc = "wait" /\ udpCh = <<>> /\ closed
 (* the mirror branch (ipfix.go:230, sflow.go:209): a pool buffer (or a fresh one - modelled by the finite pool) gets a *)
 (* copy of the datagram as it is NOW in the receive buffer and is queued for the mirror workers, or dropped when the   *)
 (* mirror queue is full (the buffer is then garbage).  The mirror worker sends what the buffer holds NOW and returns it *)
-WMirror(x) == /\ MirrorOn /\ w[x].pc = "got" /\ pool # {}
-              /\ \E b \in pool :
+WMirror(x) == /\ MirrorOn /\ w[x].pc = "got" /\ (pool \cup Unreferenced) # {}
+              /\ (MirrorBlocks => Len(mirCh) < MirCap)          \* deviation: the worker WAITS for room in the mirror queue
+              /\ \E b \in (IF pool # {} THEN pool ELSE Unreferenced) :
                    /\ content' = [content EXCEPT ![b] = content[w[x].buf]]
                    /\ IF Len(mirCh) < MirCap
                       THEN /\ mirCh' = Append(mirCh, [d |-> w[x].d, buf |-> b]) /\ pool' = pool \ {b}
@@ -122,7 +131,7 @@ WMirror(x) == /\ MirrorOn /\ w[x].pc = "got" /\ pool # {}
                            /\ pool' = IF MirrorPutsOwn THEN (pool \ {b}) \cup {w[x].buf} ELSE pool \ {b}
               /\ w' = [w EXCEPT ![x].pc = "mirrored"]
               /\ UNCHANGED <<arriving, recv, udpCh, mqCh, udpCount, decCount, stop, closed, sd, published, panicked, quit, mirrored>>
-MirrorSend == /\ mirCh # <<>>
+MirrorSend == /\ mirCh # <<>> /\ ~MirrorDead
               /\ LET m == Head(mirCh) IN
                    /\ mirrored' = [mirrored EXCEPT ![m.d] = Append(@, content[m.buf])]
                    /\ pool' = pool \cup {m.buf}
@@ -173,6 +182,19 @@ Next == \/ RecvCheck \/ RecvGet \/ RecvRead \/ RecvTimeout \/ RecvCount \/ RecvS
         \/ \E x \in Workers : WTop(x) \/ WDequeue(x) \/ WExit(x) \/ WDecode(x) \/ WMarshal(x) \/ WPublish(x) \/ WMirror(x) \/ Retire(x) \/ WQuit(x) \/ WQuitDrop(x)
         \/ Consume \/ MirrorSend \/ Signal \/ SdStop \/ SdSleepDone \/ SdClose
 Spec == Init /\ [][Next]_vars
+
+(* ---------------- liveness: with no shutdown and nobody told to quit, a collector whose receive loop, workers and     *)
+(* consumer keep taking steps gets every datagram that arrives through: received, and - when it carries data - published. *)
+(* The read needs strong fairness (the loop passes the point where a datagram can be read again and again: time-outs      *)
+(* in between), everything else weak fairness per process.  Checked with SPECIFICATION LiveSpec, no state constraint.     *)
+Running == Next /\ sd' = sd /\ quit' = quit
+LiveSpec == /\ Init /\ [][Running]_vars
+            /\ SF_vars(RecvRead /\ sd' = sd)
+            /\ WF_vars((RecvCheck \/ RecvGet \/ RecvCount \/ RecvSend) /\ sd' = sd)
+            /\ \A x \in Workers : WF_vars((WTop(x) \/ WDequeue(x) \/ WDecode(x) \/ WMarshal(x) \/ WPublish(x) \/ WMirror(x)) /\ sd' = sd)
+            /\ WF_vars(Consume) /\ WF_vars(MirrorSend)
+Drains == <>[](/\ arriving = {} /\ udpCh = <<>>
+               /\ \A d \in Dgrams : Kind(d) = "data" => Len(published[d]) = 1)
 
 \* ---------------- properties
 NoPanic == ~panicked
